@@ -38,6 +38,10 @@ func StartKeygenCommon(taproot bool, group curve.Curve, participants []party.ID,
 		} else {
 			info.ProtocolID = protocolID
 		}
+		if privateShare != nil && publicKey != nil {
+			// refreshing existing shares is a different protocol than generating a key
+			info.ProtocolID += "-refresh"
+		}
 
 		helper, err := round.NewSession(info, sessionID, nil)
 		if err != nil {
